@@ -13,13 +13,24 @@ Long runs (s3_c09.long_case): inputs valid by construction with 0..520 array ele
 EOF; char, wchar, integers, enum, LEB128, structures) stand-alone (cs.char[None] ...), as a member followed by fields, two
 in one structure, nested, and three consecutive records on one stream; value and encoded size come from the independent
 reference parser, so a right value with a wrong stream position is seen.
+Aligned records with a dynamic tail (harness/u2_c09.py:run_tail): aligned structures, valid by construction, whose LAST member is
+dynamically sized (expression-sized / null-terminated arrays of char, wchar, integers, enum, LEB128, structures; a LEB128 scalar;
+a nested structure or an array of structures ending that way) behind static heads, so that the member sits at aligned and
+unaligned static offsets and the value really ends on or off an alignment boundary; every stream call form at aligned start
+offsets must leave the stream at p + the encoded size of the reference parser, the compiled and the interpreted reader must
+agree, three different records are read back to back on one stream and as the array type T[k].
+Views that are not byte views (u2_c09.run_kinds, u2_c09.view_forms): memoryviews with item sizes 2/4/8 (cast("H"/"I"/"Q"/...),
+also over bytearray and array.array), multi-dimensional, 0-dimensional, sliced and non-contiguous views (accepted, or rejected by
+every call form alike) for every type kind - scalars, enums, char, fixed / 2-d / null-terminated arrays, typedefs (of typedefs) of
+them, structures and unions around them - with lengths at which the ITEM count or first dimension equals the type size; every
+call form must give what the reference parser gives for view.tobytes().  A sample of these views also joins the generic matrix.
 """
 from __future__ import annotations
 
 import io
 import itertools
 
-from .. import defs, impl, refimpl, s3_c09
+from .. import defs, impl, refimpl, s3_c09, u2_c09
 from ..common import Result, mkrng
 from ..structprops import Engine, load, real_parse, rand_bytes, has_eof
 
@@ -102,6 +113,9 @@ def probe(eng, res, rnd, L, T, tree, body, base, sigs, *, model=True, named=True
             "cs.read(name, bytes)": lambda: L.cs.read("T", data), "cs.read(name, BytesIO)": lambda: L.cs.read("T", io.BytesIO(data)),
             "cs.read(name, bytearray)": lambda: L.cs.read("T", bytearray(data)), "cs.read(name, memoryview)": lambda: L.cs.read("T", memoryview(data)),
         })
+    # views that are not byte views (item sizes 2/4/8, over array.array, 2-d): len() counts items / the first dimension
+    for k, fn in u2_c09.view_forms(rnd, T, L.cs, body, consumed, has_eof(tree) or not extent, named=named).items():
+        forms[k] = fn
     # the call-form predicate involves no dumping: finding F9F10 (incomplete union dumps) cannot excuse a difference here
     fsigs = [x for x in sigs if x != "F9F10"]
     top = tree[0] if tree[0] in ("struct", "union") else "array"
@@ -265,6 +279,9 @@ def run(env) -> Result:
                 "stream. The same matrix on top-level union types (unused bit-field bits, padding, smaller first member, dynamically sized) and on "
                 "long runs valid by construction (0..520 elements, null-terminated / expression / EOF arrays of char, wchar, ints, enum, LEB128, "
                 "structures; stand-alone, followed by fields, nested, three consecutive records), value and encoded size from the reference parser. "
+                "Aligned records ending in a dynamically sized member (valid by construction; stream position against the reference encoded size, "
+                "compiled against interpreted reader, back-to-back reads, T[k]). Memoryviews with multi-byte items / several dimensions / no "
+                "dimension / slices / strides x every type kind incl. char arrays and typedefs, lengths where the item count equals the type size. "
                 "distinct = (definition, config, input, offset, kind); non-trivial = offset > 0 or a non-bytes input kind")
     eng = Engine(env, res, "C09")
     rnd = mkrng(env["seed"], "c09")
@@ -295,6 +312,8 @@ def run(env) -> Result:
         if len(eng.lines) > 4000:
             eng.flush()
     eng.flush()
+    u2_c09.run_tail(env, eng, res, mkrng(env["seed"], "c09-tail"))
+    u2_c09.run_kinds(env, eng, res, mkrng(env["seed"], "c09-kinds"))
     run_unions(env, eng, res, mkrng(env["seed"], "c09-unions"))
     run_long(env, eng, res, mkrng(env["seed"], "c09-long"))
     return res
